@@ -62,21 +62,26 @@ def check_case(case):
     err = None
     try:
         for b in case.get("batches", []):
-            run.iterate(b)
+            ok = run.iterate(b)
             if run.problem.log:
-                check_now("after DoGlobalIteration")
+                check_now("after DoGlobalIteration" if ok else "after float collapse")
+            if not ok:
+                break
         if case.get("solve", True):
             run.solve()
             check_now("after Solve")
     except BaseException as e:                 # noqa
         err = repr(e)
-    if err or run.printed_exception or run.runaway:
-        vs.append(oc.violation(PROP, case, "no-internal-error", {"raised": err, "printed_marker": run.printed_exception}))
+    if run.trouble(err):
+        vs.append(oc.violation(PROP, case, "no-internal-error", run.trouble(err)))
+    info["float_collapse"] = bool(run.collapsed)
     info["trials"] = len(run.glog())
     return vs, info
 
 
 def gen(r):
+    if r.random() < 0.03:
+        return dict(oc.collapse_prone_case(r), solve=r.random() < 0.5, listener=r.random() < 0.5)
     n = r.choice((1, 1, 2, 2, 3, 4, 5))
     spec = oc.step_spec(r, n) if r.random() < 0.12 else None
     case = oc.gen_case(r, n=n, spec=spec, lim=r.choice([2, 3, 5, 8, 17, 40, 80, 150, 400]))
@@ -95,7 +100,7 @@ def gen(r):
 
 
 def run(tier, r):
-    ncases = 420 if tier == "quick" else 6500
+    ncases = 400 if tier == "quick" else 6000
     vs, stats, samples, keys = [], {}, [], set()
     nontrivial = explored = 0
     for i in range(ncases):
@@ -106,6 +111,7 @@ def run(tier, r):
         oc.bump(stats, "dim%d" % case["n"])
         oc.bump(stats, "density%d" % case["m"])
         oc.bump(stats, "record_checks", info.get("checks", 0))
+        oc.bump(stats, "float_collapse_stops", 1 if info.get("float_collapse") else 0)
         oc.bump(stats, "trials_total", info.get("trials", 0))
         key = oc.case_key(case)
         if key not in keys:
